@@ -694,7 +694,7 @@ pub fn op_strategy(chunk: usize, with_faults: bool, gzip: bool) -> BoxedStrategy
         2 => Just(Op::Flush),
         2 => Just(Op::FlushThenDrain),
         1 => Just(Op::PollUntilPending),
-        1 => (1u8..4).prop_map(Op::Poll),
+        1 => prop_oneof![3 => 1u8..4, 1 => 5u8..=120].prop_map(Op::Poll),
         1 => Just(Op::Sample),
     ];
     if with_faults {
@@ -883,6 +883,42 @@ fn backlog_strategy_plain(gzip: bool) -> BoxedStrategy<SCase> {
         .boxed()
 }
 
+/// Fill / partly drain / fill again / drain: the queue's ring buffer wraps around. Chunk size 1 or 2,
+/// so that a few hundred bytes are a few hundred queued chunks.
+pub fn ring_buffer_cases(mut f: impl FnMut(SCase)) {
+    for chunk in [1usize, 2] {
+        for a in [40u32, 70, 100, 130, 200, 300] {
+            for drain_pct in [10u32, 25, 40, 60, 75, 90] {
+                for b in [a / 5, a / 2, a, a + a / 3] {
+                    for second_drain in [None, Some(50u32)] {
+                        let c = chunk as u32;
+                        let first = (a * drain_pct / 100).max(1);
+                        let mut ops = vec![Op::WriteAll(a * c)];
+                        // Poll takes a u8: several ops for larger counts
+                        let mut left = first;
+                        while left > 0 {
+                            let k = left.min(120);
+                            ops.push(Op::Poll(k as u8));
+                            left -= k;
+                        }
+                        ops.push(Op::WriteAll(b * c));
+                        if let Some(pct) = second_drain {
+                            let mut left = ((a - first + b) * pct / 100).max(1);
+                            while left > 0 {
+                                let k = left.min(120);
+                                ops.push(Op::Poll(k as u8));
+                                left -= k;
+                            }
+                            ops.push(Op::WriteAll(a * c / 2 + 1));
+                        }
+                        f(SCase { gzip: None, chunk, payload: Payload::Hash, ops, extra_polls: 1, ..Default::default() });
+                    }
+                }
+            }
+        }
+    }
+}
+
 /// `n` writes of `s` bytes each, a flush that the consumer drains, one more byte: for every `n` the
 /// flush falls right after the write that makes the total cross whatever internal threshold there is.
 pub fn small_writes_then_flush(gzip: Option<u32>, chunk: usize, s: u32, n: usize) -> SCase {
@@ -924,7 +960,7 @@ pub fn enumerate_ops(c: usize, n: usize, f: &mut dyn FnMut(&[Op])) {
 pub const META_C08: Meta = Meta {
     id: "C08",
     level: "exploration",
-    rule: "Stateful/model-based: operation histories over {write(n), write_all(n), write_vectored(a, b), flush, flush-then-drain, poll-until-pending, poll(k), sample} with n in {0,1,c-1,c,c+1,2c,3c,random}, then drop, interpreted against streaming_body (identity coding) and an in-memory model of accepted bytes, by a consumer that polls to the end and by one that stops polling once is_end_stream() is true (as hyper does), with the writer dropped normally or while its thread unwinds from a panic. Exhaustive for all histories of <= 4 operations (thorough 5) over the 19-op alphabet with chunk sizes {1,2,3,4,7}; proptest vec(op, 0..40) for chunk sizes up to 65536 with size classes {boundary sizes, nearly a full chunk, small fractions of a chunk, hundreds of chunks}, 'repeated-pattern' histories (1-3 operations repeated 2-64 times, or two patterns with a few operations between them), 'backlog' histories (64 KiB to 5 MiB written before the consumer polls, in one write_all or several writes), and for every n up to 420 (thorough 1400): n writes of s in {1,21,50,63} bytes, flush, drain, one more byte. Payload bytes are a running position hash so order and duplication are visible. Non-trivial = >= 2 writes with a partial acceptance or a chunk boundary crossed, and a poll between two producer operations; distinct by fingerprint of history.",
+    rule: "Stateful/model-based: operation histories over {write(n), write_all(n), write_vectored(a, b), flush, flush-then-drain, poll-until-pending, poll(k), sample} with n in {0,1,c-1,c,c+1,2c,3c,random}, then drop, interpreted against streaming_body (identity coding) and an in-memory model of accepted bytes, by a consumer that polls to the end and by one that stops polling once is_end_stream() is true (as hyper does), with the writer dropped normally or while its thread unwinds from a panic. Exhaustive for all histories of <= 4 operations (thorough 5) over the 19-op alphabet with chunk sizes {1,2,3,4,7}; proptest vec(op, 0..40) for chunk sizes up to 65536 with size classes {boundary sizes, nearly a full chunk, small fractions of a chunk, hundreds of chunks}, 'repeated-pattern' histories (1-3 operations repeated 2-64 times, or two patterns with a few operations between them), 'ring-buffer' histories (fill with 40-300 chunks, drain part of them, fill again), 'backlog' histories (64 KiB to 5 MiB written before the consumer polls, in one write_all or several writes), and for every n up to 420 (thorough 1400): n writes of s in {1,21,50,63} bytes, flush, drain, one more byte. Payload bytes are a running position hash so order and duplication are visible. Non-trivial = >= 2 writes with a partial acceptance or a chunk boundary crossed, and a poll between two producer operations; distinct by fingerprint of history.",
     assumptions: &["single-threaded interleaving of producer operations and consumer polls (schedules are C10's subject)"],
 };
 
@@ -1000,6 +1036,11 @@ pub fn run_c08(cx: &Cx) -> Acc {
     acc.merge(par_proptest(cx, "random", 100_000 * n, || case_strategy(false, false, 40), |c, acc| check_stream(c, acc, false)));
     acc.merge(par_proptest(cx, "repeated-pattern", 40_000 * n, || prop_oneof![2 => repeated_pattern_strategy(false), 1 => two_phase_pattern_strategy(false)], |c, acc| check_stream(c, acc, false)));
     acc.merge(par_proptest(cx, "backlog", 300 * n, || backlog_strategy(false), |c, acc| check_stream(c, acc, false)));
+    acc.merge(par_units(cx, "ring-buffer", &[0u8], true, "fill with 40-300 chunks, drain 10-90 % of them, fill again, optionally drain half and fill once more (chunk size 1 and 2)", |cx, _, acc| {
+        ring_buffer_cases(|case| {
+            acc.run_case(cx, "ring-buffer", &case, |acc| check_stream(&case, acc, false));
+        });
+    }));
     let max_writes = cx.tier.pick(420usize, 1400usize);
     let units: Vec<(usize, u32)> = [64usize, 4096].iter().flat_map(|c| [1u32, 21, 50, 63].into_iter().map(move |s| (*c, s))).collect();
     acc.merge(par_units(cx, "small-writes-then-flush", &units, true, "n writes of s bytes, flush, drain, one more byte: every n up to the bound, s in {1,21,50,63}, chunk {64,4096}", |cx, &(c, s), acc| {
